@@ -1033,17 +1033,36 @@ class FnTranslator:
             return acc
         if k == "let":
             if e[3] is not None: self.assigned(e[3], acc, declared)
-            for v in self.pat_vars(e[1]): declared.add(v)
+            # (b1315, round 9) a write-through alias declared inside the construct (`let x = X.lock().unwrap()`,
+            # `X.as_mut().unwrap()`, `X.iter_mut().find(..).unwrap()`, `&mut X`) is not a new variable: a write through it
+            # is a write to the root of X.  It used to count as a local, so that the enclosing if/match/for did not
+            # carry the written place over (the write was lost: monitor.rs `on_transaction_output`).
+            tgt = None
+            if e[1][0] == "pvar" and e[3] is not None:
+                init = e[3]
+                if self.lock_alias(init) is not None: tgt = self.lock_alias(init)
+                elif self.some_alias(init) is not None: tgt = self.some_alias(init)[1]
+                elif self.find_alias(init) is not None: tgt = self.find_alias(init)[0]
+                elif init[0] == "ref" and len(init) > 2: tgt = init[1]
+            aroots = self.__dict__.setdefault("_aroots", {})
+            if tgt is not None:
+                try:
+                    aroots[e[1][1]] = self.alias_root(tgt)
+                    return acc
+                except RsError:
+                    pass
+            for v in self.pat_vars(e[1]):
+                declared.add(v); aroots.pop(v, None)
             return acc
         if k == "assign":
-            r = self.place_root(e[2])
+            r = self.alias_root(e[2])
             if r not in declared and r not in acc: acc.append(r)
             self.assigned(e[3], acc, declared)
             return acc
         if k == "ref" and len(e) > 2:
             # `&mut place` handed to a callee: the place may be assigned
             try:
-                r = self.place_root(e[1])
+                r = self.alias_root(e[1])
                 if r not in declared and r not in acc: acc.append(r)
             except RsError:
                 pass
@@ -1052,7 +1071,7 @@ class FnTranslator:
             while x[0] == "mcall" and x[2] != "entry": x = x[1]
             if x[0] == "mcall":
                 try:
-                    r = self.place_root(x[1])
+                    r = self.alias_root(x[1])
                     if r not in declared and r not in acc: acc.append(r)
                 except RsError:
                     pass
@@ -1060,7 +1079,7 @@ class FnTranslator:
             if e[2] in MUT_METHODS or e[2] == "take" or self.is_mut_self_call(e) or e[2] in ATOMIC_OPS \
                     or any(n.endswith("." + e[2]) and x.get("updates_receiver") for n, x in self.u.externals.items()):
                 try:
-                    r = self.place_root(e[1])
+                    r = self.alias_root(e[1])
                     if r not in declared and r not in acc: acc.append(r)
                 except RsError:
                     pass
@@ -1068,6 +1087,15 @@ class FnTranslator:
         for x in e[1:]:
             if isinstance(x, (tuple, list)): self.assigned(x, acc, declared)
         return acc
+
+    def alias_root(self, place):
+        """root variable of a place, seen through the write-through aliases recorded by `assigned`"""
+        r = self.place_root(place)
+        aroots = self.__dict__.get("_aroots", {})
+        seen = set()
+        while r in aroots and r not in seen:
+            seen.add(r); r = aroots[r]
+        return r
 
     def is_mut_self_call(self, e):
         impl = None
@@ -1146,6 +1174,20 @@ class FnTranslator:
                 _, at = self.expr(al, env, [], None)
                 env2 = dict(env)
                 env2[pat[1]] = ("alias", al, at)
+                return self.stmts(rest, tail, env2, fin)
+            if e[0] == "ref" and len(e) > 2 and pat[0] == "pvar":
+                # (b1315, round 9) `let x = &mut a.b.c;`: x is a write-through alias of the place.  It used to be bound
+                # like a value, so that writes through x (`x.f = e`, `x.m()` for a `&mut self` method) were silently lost
+                # (monitor.rs `PushListener::on_transaction_start/_output`).  Only plain field paths; anything else is refused.
+                tgt = e[1]
+                while tgt[0] == "paren": tgt = tgt[1]
+                t2 = tgt
+                while t2[0] == "field": t2 = t2[1]
+                if t2[0] != "path" or len(t2[1]) != 1:
+                    raise RsError("`let x = &mut place` on a place that is not a field path (line %d)" % line)
+                _, at = self.expr(tgt, env, [], None)
+                env2 = dict(env)
+                env2[pat[1]] = ("alias", tgt, at)
                 return self.stmts(rest, tail, env2, fin)
             if pat[0] == "pvar" and ("let:" + pat[1]) in self.u.externals:
                 return self.let_external(pat[1], e, line, rest, tail, env, fin)
@@ -2613,6 +2655,15 @@ class FnTranslator:
     def value_control(self, e, env, pre, want):
         """if/match/block used as a value"""
         if self.has_return(e): raise RsError("return inside a value expression")
+        # (b1315, round 9) fail closed: a branch of a value expression that assigns an outer variable / `self` (directly or
+        # through an alias) — the value is all that is kept of the branches, the assignment used to be silently lost
+        # (monitor.rs `on_transaction_input`: `… else if c.includes_htlc_output(..) { v.push(..); None } …`)
+        try:
+            lost = [v for v in self.assigned(e, [], set()) if v in env]
+        except RsError:
+            lost = []
+        if lost:
+            raise RsError("assignment to %s inside an if/match/block used as a value is outside the subset" % ", ".join(sorted(set(lost))))
         box = []
         def fin(env2, t):
             if t is None:
